@@ -204,6 +204,7 @@ def check(run):
                                                                               'an absent entry is dereferenced (undefined behaviour; assert() is compiled out)' if not found else
                                                                               'a socket that merely shares the endpoint (an accepted socket) takes over or removes its acceptor\'s entry'),
                       'dominated by found && owner')
+    exact_key_rule(run)
     # every find/lower_bound result on the registries
     nl = 0
     for f in fx.repo_functions():
@@ -288,3 +289,42 @@ def is_owner_test(fn, atom, param):
     if {l, r} == {'i->second', param}:
         return c[0] == '=='
     return None
+
+
+def exact_key_rule(run):
+    """A socket is selected from a registry only by its exact endpoint: an iterator whose ->second is used comes from
+    find(key), or from lower_bound/upper_bound with a dominating `it->first == key` test. (lower_bound alone returns
+    the next greater endpoint when the key is absent: datagrams/connects to an unbound endpoint reach a stranger.)
+    Shared with C08."""
+    fx = run.fx
+    n = 0
+    for f in fx.repo_functions():
+        if f.cls != S or f.cfg is None:
+            continue
+        for nd in f.all_nodes():
+            if not (nd['k'] == 'member' and nd.get('name') == 'second' and nd.get('arrow')):
+                continue
+            base = q.strip_casts(nd['base'])
+            if not (is_node(base) and base['k'] == 'call' and base.get('opc') == '->'):
+                continue
+            it = q.strip_casts(base['args'][0])
+            if not (is_node(it) and it['k'] == 'ref' and it.get('dk') == 'local'):
+                continue
+            defs = [q.strip_casts(d) for _, d in q.local_defs(f, it['did'])]
+            while any(is_node(d) and d['k'] == 'construct' and d.get('args') for d in defs):
+                defs = [q.strip_casts(d['args'][0]) if is_node(d) and d['k'] == 'construct' and d.get('args') else d for d in defs]
+            regs = [d for d in defs if is_node(d) and d['k'] == 'call' and q.render(f, d.get('obj')) in ('m_udp_sockets', 'm_listen_sockets')]
+            if not regs:
+                continue
+            n += 1
+            run.touch(f)
+            inexact = [d for d in regs if (d.get('callee') or '').split('::')[-1] in ('lower_bound', 'upper_bound', 'begin', 'rbegin')]
+            ok = True
+            if inexact:
+                g = q.guards_at(f, nd)
+                ok = any((q.cmp_atom(a) and ((q.cmp_atom(a)[0] == '==' and p_) or (q.cmp_atom(a)[0] == '!=' and not p_)) and (it['name'] + '->first') in q.render(f, a)) for a, p_ in g)
+            run.check(ok, 'R5', 'exact-key-lookup', '%s: %s->second' % (f.norm, it['name']), f.loc(nd),
+                      'the socket is taken from %s without checking that the entry\'s key equals the endpoint asked for: when nothing is bound there the NEXT GREATER endpoint is selected, so traffic for an unbound endpoint is delivered to a stranger instead of being discarded/refused'
+                      % (q.render(f, inexact[0])[:60] if inexact else ''), 'selected by find(key) or under it->first == key')
+    if n < 3:
+        run.broke('fewer than 3 registry iterator dereferences (->second) found in simulation')
